@@ -317,138 +317,3 @@ Proof.
   eexists; split; [reflexivity|]. cbn [vrel cshards ccoords cfin gleaf gg gco gfin]. auto.
 Qed.
 
-(* ------------------------------------------------------------------ the simulation *)
-Definition srel (st : mstate) (gst : gstate) : Prop :=
-  Forall2 vrel (stack st) (gstack gst) /\ Forall2 vrel (env st) (genv gst).
-
-Lemma Forall2_firstn {A B} (R : A -> B -> Prop) n l1 l2 : Forall2 R l1 l2 -> Forall2 R (firstn n l1) (firstn n l2).
-Proof. intros F; revert n; induction F; intros [|n]; cbn [firstn]; constructor; auto. Qed.
-Lemma Forall2_skipn {A B} (R : A -> B -> Prop) n l1 l2 : Forall2 R l1 l2 -> Forall2 R (skipn n l1) (skipn n l2).
-Proof. intros F; revert n; induction F; intros [|n]; cbn [skipn]; try constructor; auto. Qed.
-Lemma Forall2_rev {A B} (R : A -> B -> Prop) l1 l2 : Forall2 R l1 l2 -> Forall2 R (rev l1) (rev l2).
-Proof. induction 1; cbn [rev]; [constructor|]. apply Forall2_app; [assumption|constructor; [assumption|constructor]]. Qed.
-Lemma Forall2_zlen {A B} (R : A -> B -> Prop) l1 l2 : Forall2 R l1 l2 -> zlen l1 = zlen l2.
-Proof. intros F. unfold zlen. f_equal. induction F; cbn [length]; congruence. Qed.
-Lemma Forall2_nthz {A B} (R : A -> B -> Prop) l1 l2 k y :
-  Forall2 R l1 l2 -> nthz l2 k = Some y -> exists x, nthz l1 k = Some x /\ R x y.
-Proof.
-  unfold nthz. destruct (k <? 0); [discriminate|]. generalize (Z.to_nat k) as n. intros n F; revert n.
-  induction F; intros [|n] H'; cbn [nth_error] in *; try discriminate.
-  - injection H' as <-. eauto.
-  - eauto.
-Qed.
-
-Lemma pop_n_rel {A B} (R : A -> B -> Prop) n l1 l2 vs2 r2 :
-  Forall2 R l1 l2 -> pop_n n l2 = Ok (vs2, r2) ->
-  exists vs1 r1, pop_n n l1 = Ok (vs1, r1) /\ Forall2 R vs1 vs2 /\ Forall2 R r1 r2.
-Proof.
-  intros F. unfold pop_n. rewrite (Forall2_zlen _ _ _ F). destruct ((n <? 0) || (zlen l2 <? n)); [discriminate|].
-  intros [= <- <-]. eexists _, _. split; [reflexivity|]. unfold takez, dropz.
-  split; [apply Forall2_rev, Forall2_firstn, F|apply Forall2_skipn, F].
-Qed.
-
-Definition proved_instr (i : instr) : bool :=
-  match i with IJoin _ | IOverlay _ _ | IPadLR _ _ => false | _ => true end.
-
-Lemma on_comp_sim st gst gst' (f : comp -> result comp) (fg : gval -> option gval) :
-  srel st gst ->
-  (forall c gv gv', vrel (VComp c) gv -> gfin gv = false -> fg gv = Some gv' ->
-                    exists c', f c = Ok c' /\ vrel (VComp c') gv') ->
-  on_gcomp gst fg = Some gst' -> exists st', on_comp st f = Ok st' /\ srel st' gst'.
-Proof.
-  intros [Fs Fe] Hf. unfold on_gcomp, on_comp. inversion Fs as [|v gv vs gvs Rv Rs Es Eg]; [discriminate|].
-  destruct (gleaf gv || gfin gv) eqn:E; [discriminate|]. apply orb_false_elim in E as [El Efn].
-  destruct (fg gv) as [gv'|] eqn:Eg'; [|discriminate]. intros [= <-].
-  destruct v as [c cu|c]; [destruct Rv as (Rl & _); congruence|].
-  destruct (Hf _ _ _ Rv Efn Eg') as (c' & -> & Rv'). eexists; split; [reflexivity|].
-  split; cbn [stack env gstack genv]; [constructor; assumption|assumption].
-Qed.
-
-Lemma step_sim leaves st gst i gst' :
-  srel st gst -> proved_instr i = true -> gstep leaves gst i = Some gst' ->
-  exists st', step leaves st i = Ok st' /\ srel st' gst'.
-Proof.
-  intros R P. pose proof R as [Fs Fe]. destruct i; cbn [proved_instr] in P; try discriminate; cbn [gstep step].
-  - (* ILeaf *)
-    destruct (nthz leaves (i - 1)) as [[c cu]|]; [|discriminate]. destruct (leaf_okb c) eqn:L; [|discriminate].
-    intros [= <-]. eexists; split; [reflexivity|]. split; cbn [stack env gstack genv]; [|assumption].
-    constructor; [|assumption]. cbn [vrel gleaf gfin gg gco]. auto.
-  - (* IRef *)
-    destruct (nthz (genv gst) k) as [gv|] eqn:E; [|discriminate]. intros [= <-].
-    destruct (Forall2_nthz _ _ _ _ _ Fe E) as (v & -> & Rv). eexists; split; [reflexivity|].
-    split; cbn [stack env gstack genv]; [constructor; assumption|assumption].
-  - (* IWrap *)
-    inversion Fs as [|v gv vs gvs Rv Rs Es Eg]; [discriminate|]. intros [= <-].
-    destruct (wrap_rel _ _ Rv) as (c & -> & Rc). eexists; split; [reflexivity|].
-    split; cbn [stack env gstack genv]; [constructor; assumption|assumption].
-  - (* ICombine *)
-    destruct (pop_n n (gstack gst)) as [[gvs grest]|e] eqn:E; [|discriminate].
-    destruct (same_width gvs) eqn:S; [|discriminate]. intros [= <-].
-    destruct (pop_n_rel _ _ _ _ _ _ Fs E) as (vs & rest & -> & Rvs & Rrest).
-    destruct (canvas_combine_rel _ _ Rvs S) as (c & -> & Rc). eexists; split; [reflexivity|].
-    split; cbn [stack env gstack genv]; [constructor; assumption|assumption].
-  - (* IPadTB *)
-    apply on_comp_sim; [assumption|]. intros c gv gv' Rv Hf. destruct (0 <? gheight (gg gv) + Z.min t 0 + Z.min b 0) eqn:E; [|discriminate].
-    intros [= <-]. apply comp_pad_trim_top_bottom_rel; [assumption|assumption|lia].
-  - (* ITrim *)
-    apply on_comp_sim; [assumption|]. intros c gv gv' Rv Hf.
-    destruct ((0 <=? top) && (top <? gheight (gg gv)) && match count with Some n => 0 <? n | None => true end) eqn:E; [|discriminate].
-    intros [= <-]. apply comp_trim_rel; [assumption|assumption|lia|destruct count; [lia|exact I]].
-  - (* ITrimEnd *)
-    apply on_comp_sim; [assumption|]. intros c gv gv' Rv Hf. destruct ((0 <? e) && (e <? gheight (gg gv))) eqn:E; [|discriminate].
-    intros [= <-]. apply comp_trim_end_rel; [assumption|assumption|lia].
-  - (* IFillAttr *)
-    apply on_comp_sim; [assumption|]. intros c gv gv' Rv Hf [= <-]. now apply comp_fill_attr_rel.
-  - (* ISetCursor *)
-    apply on_comp_sim; [assumption|]. intros c0 gv gv' Rv Hf [= <-]. now apply comp_set_cursor_rel.
-  - (* ISetPopUp *)
-    apply on_comp_sim; [assumption|]. intros c gv gv' Rv Hf [= <-]. now apply comp_set_pop_up_rel.
-  - (* IFinalize *)
-    apply on_comp_sim; [assumption|]. intros c gv gv' Rv Hf [= <-]. now apply comp_finalize_rel.
-  - (* IBind *)
-    inversion Fs as [|v gv vs gvs Rv Rs Es Eg]; [discriminate|]. intros [= <-].
-    eexists; split; [reflexivity|]. split; cbn [stack env gstack genv]; [assumption|].
-    apply Forall2_app; [assumption|constructor; [assumption|constructor]].
-  - (* IDelta *)
-    destruct (nthz (genv gst) i) as [ga|] eqn:Ea; [|discriminate]. destruct (nthz (genv gst) j) as [gb|] eqn:Eb; [|discriminate].
-    intros [= <-]. destruct (Forall2_nthz _ _ _ _ _ Fe Ea) as (va & -> & _). destruct (Forall2_nthz _ _ _ _ _ Fe Eb) as (vb & -> & _).
-    eexists; split; [reflexivity|]. split; assumption.
-Qed.
-
-Lemma run_sim leaves prog : forall st gst gst',
-  srel st gst -> Forall (fun i => proved_instr i = true) prog -> grun leaves gst prog = Some gst' ->
-  exists st', run leaves st prog = (st', None) /\ srel st' gst'.
-Proof.
-  induction prog as [|i prog IH]; intros st gst gst' R P; cbn [grun run].
-  - intros [= <-]. eauto.
-  - inversion P; subst. destruct (gstep leaves gst i) as [gst1|] eqn:E; [|discriminate]. intros G.
-    destruct (step_sim _ _ _ _ _ R H1 E) as (st1 & -> & R1). eapply IH; eauto.
-Qed.
-
-(* what the relation says about the observable methods content(), cols(), rows(), coords *)
-Lemma leaf_content_default c : leaf_okb c = true -> canvas_content_default c = Ok (leaf_grid c).
-Proof.
-  unfold leaf_okb, canvas_content_default, leaf_grid. destruct (cknd c) as [rws mc|cs ch cols rows|] eqn:E; [| |discriminate].
-  - intros L. apply andb_prop in L as [L0 L]. unfold text_content.
-    replace (0 =? 0) with true by lia. rewrite !Z.sub_0_r.
-    destruct (negb ((0 <=? 0) && (0 <? mc) && (0 <? mc) && (0 + mc <=? mc))) eqn:E1; [lia|].
-    destruct (negb ((0 <=? 0) && (0 <? zlen rws) && (0 <? zlen rws) && (0 + zlen rws <=? zlen rws))) eqn:E2; [lia|].
-    destruct (negb true || (zlen rws <? zlen rws)) eqn:E3; [lia|].
-    destruct (negb true || (mc <? mc)) eqn:E4; [lia|]. f_equal.
-    rewrite <- (map_id rws) at 2. apply map_ext. intros r.
-    rewrite map_ext with (g := fun c => c) by apply cell_map_attr_none. apply map_id.
-  - intros _. reflexivity.
-Qed.
-
-Lemma vrel_observables v gv :
-  vrel v gv ->
-  value_content v = Ok (gg gv) /\ vcols v = Ok (gwidth (gg gv)) /\ vrows v = Ok (gheight (gg gv)) /\ vcoords v = gco gv.
-Proof.
-  intros R. destruct (vrel_dims _ _ R) as (A & B & _). split; [|split; [assumption|split; [assumption|]]].
-  - destruct v as [c cu|c]; cbn [vrel value_content] in *.
-    + destruct R as (_ & _ & L & -> & _). now apply leaf_content_default.
-    + now destruct R as (_ & _ & C & _).
-  - destruct v as [c cu|c]; cbn [vrel vcoords] in *.
-    + now destruct R as (_ & _ & _ & _ & ->).
-    + now destruct R as (_ & _ & _ & -> & _).
-Qed.
